@@ -124,7 +124,7 @@ def _spellings(c, s, e, L):
             yield "tuple-none2", (c, None, None)
 
 
-def _api_table(R, table, tier, only):
+def _api_table(R, table, tier, only, tindex=0):
     import cooler
     flavour = "chr"
     bins = alpha.table_bins(table, flavour)
@@ -135,9 +135,22 @@ def _api_table(R, table, tier, only):
     total_bp = sum(sum(c) for c in table)
     pair_cap = 9 if tier == "thorough" else 7
     p = scratch.fresh()
+    h5 = None
     try:
-        build.create(p, bins, pix, True)
-        clr = cooler.Cooler(p)
+        # the store is given as a plain path, as a URI to a nested group, or as an open HDF5 handle, rotating over the tables
+        kind = ("path", "uri", "handle")[tindex % 3]
+        if kind == "path":
+            build.create(p, bins, pix, True)
+            clr = cooler.Cooler(p)
+        else:
+            build.create(p + "::/deep/grp", bins, pix, True)
+            if kind == "uri":
+                clr = cooler.Cooler(p + "::deep/grp")
+            else:
+                import h5py
+                h5 = h5py.File(p, "r")
+                clr = cooler.Cooler(h5["/deep/grp"])
+        R.cls("api-store:" + kind)
         R.add("states")
         R.add("traces")
         for ch in table:
@@ -206,6 +219,8 @@ def _api_table(R, table, tier, only):
         else:
             R.cls("api-pair-skipped(genome>%dbp)" % pair_cap)
     finally:
+        if h5 is not None:
+            h5.close()
         scratch.rm(p)
 
 
@@ -220,6 +235,6 @@ def run(unit, R, tier, only=None):
         R.sample({"leg": "func", "table(widths per chromosome)": [list(c) for c in tabs[-1]], "regions": "all 0<=s<=e<=L per chromosome"})
     else:
         t = alpha.bt_rep(3, unit["B"])[unit["k"]]
-        _api_table(R, t, tier, only)
+        _api_table(R, t, tier, only, unit["k"])
         if unit["k"] == 5:
             R.sample({"leg": "api", "table": [list(c) for c in t], "calls": "extent, offset, bins.fetch, pixels.fetch, matrix.fetch(r), matrix.fetch(r1,r2)"})
